@@ -123,6 +123,41 @@ theorem stepP_filter (f : Nat) (st : St α) (i : Nat) (p : α → Bool) :
   simp only [stepP, step, ALV.Gen.C03.progs, inPlace, wrapP_filter]
   rfl
 
+theorem hubInitP_gen (st : St α) (s : Src α) (n : Nat) :
+    hubInitP ALV.Gen.C03.hubInit st s n =
+      match mkSrc st s with
+      | .error e => some (st, .err e)
+      | .ok (st', it) =>
+        some (⟨(teeOf st'.heap it).1, st'.pool ++ [.hub (List.replicate n (teeOf st'.heap it).2)]⟩, .new st'.pool.length) := by
+  simp only [hubInitP, ALV.Gen.C03.hubInit, execHI]
+  cases mkSrc st s with
+  | error e => rfl
+  | ok r => rfl
+
+theorem stepP_thub (f : Nat) (st : St α) (s : Src α) (n : Nat) :
+    stepP ALV.Gen.C03.progs f st (.thub s n) = step f st (.thub s n) := by
+  simp only [stepP, thubP, ALV.Gen.C03.progs, ALV.Gen.C03.thub, hubInitP_gen]
+  cases s <;> simp only [step] <;> (try rfl) <;> (split <;> rfl)
+
+theorem initP_gen (args : List (CArg α)) : initP ALV.Gen.C03.init args = elabArgs args := by
+  match args with
+  | [] => rfl
+  | [a] => cases a <;> rfl
+  | a :: b :: r =>
+    simp only [initP, ALV.Gen.C03.init, evalICond, evalIData, chainItersOf, elabArgs]
+    by_cases h1 : (a :: b :: r).all CArg.iterable
+    · simp [h1]; rfl
+    · by_cases h2 : (a :: b :: r).all (fun a => !a.iterable)
+      · simp [h1, h2]
+      · simp [h1, h2]
+
+theorem stepP_tee (f : Nat) (st : St α) (i n : Nat) :
+    stepP ALV.Gen.C03.progs f st (.tee i n) = step f st (.tee i n) := by
+  simp only [stepP, teeP, ALV.Gen.C03.progs, ALV.Gen.C03.tee, step]
+  cases mkSrc st (.obj i) with
+  | error e => rfl
+  | ok r => rfl
+
 /-- the step function of the history model IS the interpretation of the regenerated programs -/
 theorem stepP_gen (f : Nat) (st : St α) (op : Op α) : stepP ALV.Gen.C03.progs f st op = step f st op := by
   cases op with
@@ -137,7 +172,7 @@ theorem stepP_gen (f : Nat) (st : St α) (op : Op α) : stepP ALV.Gen.C03.progs 
   | new s => rfl
   | next i => rfl
   | drain i => rfl
-  | thub s n => rfl
-  | tee i n => rfl
+  | thub s n => exact stepP_thub f st s n
+  | tee i n => exact stepP_tee f st i n
 
 end ALV.C03.Src
